@@ -218,3 +218,10 @@ mod set {
         }
     }
 }
+
+// Verification hook, compiled only with `--cfg hashbrown_verif` (see src/raw/mod.rs).
+#[cfg(hashbrown_verif)]
+#[allow(missing_docs, dead_code, unused, unexpected_cfgs, clippy::all, clippy::pedantic)]
+pub(crate) mod verif {
+    include!(concat!(env!("HASHBROWN_VERIF_DIR"), "/serde_verif.rs"));
+}
